@@ -67,6 +67,19 @@ def run(ctx, driver):
         if any(s.startswith("BLOCKED") for s in out):
             rec.fail("C12:reader-blocked-in-semaphore", {}, {"ops": applied, "impl": out})
         rec.dist["slots:waits"] += sum(1 for s in out if s.startswith("wait"))
+        # the accounting identity of C12.slot_accounting, on the implementation's own numbers: permits + open = limit + withheld
+        import re
+        for st in out:
+            if st.startswith("ERROR"):
+                rec.fail("C12:slot-bookkeeping-error", {"error": st.split(":")[0].split(" ")[1]}, {"ops": applied, "impl": out})
+                break
+            mm = re.search(r"sem=(-?\d+) held=(\d+) max=(\d+) debt=(\d+)", st)
+            if mm:
+                sem, held_n, mx, debt = map(int, mm.groups())
+                if sem + held_n != mx + debt or not (1 <= mx <= 100):
+                    rec.fail("C12:slot-accounting-broken", {}, {"ops": applied, "impl": out, "state": st,
+                                                                "why": "free permits + open streams != limit in force + permits still withheld"})
+                    break
         if ans is not None:
             m = ans.split(";")[2:]
             if m != out:
